@@ -15,7 +15,7 @@ git -C /repo worktree add -q --detach $wt HEAD || { echo "$name: cannot create w
 cleanup() { git -C /repo worktree remove --force $wt 2>/dev/null; }
 trap cleanup EXIT
 cd $wt
-cp $dir/demo_test.go $wt/zz_seed_demo_test.go
+cp $dir/demo_test.go.txt $wt/zz_seed_demo_test.go
 demo_clean=$(go test -count=1 -run 'Seed|Demo|Mutant' . 2>&1 | tail -3)
 echo "$demo_clean" | grep -q '^ok' && dc=pass || dc=FAIL
 if ! git apply $dir/patch.diff 2>>$out; then echo "$name: patch does not apply"; exit 2; fi
